@@ -29,10 +29,15 @@ def _image(case, fwhm, thr):
         data += rng.uniform(15, 400) * np.exp(-(((xx - x) / sig) ** 2 + ((yy - y) / (sig * q)) ** 2) / 2)
     # many faint sources whose peaks straddle the detection threshold: any drift of the effective
     # threshold or of the kernel scale between calls changes which of them are returned
+    for _ in range(int(rng.integers(1, 4))):          # sources near / across exactly one border or corner
+        ex, ey, _e = AX.edge_position(case, 'finder', (ny, nx), margin=6.0)
+        data += rng.uniform(30, 200) * np.exp(-(((xx - ex) / sig) ** 2 + ((yy - ey) / sig) ** 2) / 2)
     for _ in range(int(rng.integers(6, 20))):
         x, y = rng.uniform(2, nx - 2), rng.uniform(2, ny - 2)
         data += rng.uniform(0.5, 2.5) * thr * np.exp(-(((xx - x) / sig) ** 2 + ((yy - y) / sig) ** 2) / 2)
-    mask = (rng.random((ny, nx)) < 0.03) if rng.random() < 0.3 else None
+    mask = AX.mask_kind(case, 'finder')((ny, nx), 0.03)
+    if mask is not None and mask.all():
+        mask = None
     r = rng.random()
     if r < 0.05:
         data = np.full((ny, nx), 3.0)                     # degenerate: constant image, nothing to detect
@@ -110,7 +115,8 @@ def run(case, kind):
     lay = AX.layout(case, 'layout_finder')
     ncalls = int(rng.integers(2, 6))
     imgs = [_image(case, fwhm, thr) for _ in range(int(rng.integers(2, 4)))]
-    imgs = [(d * mag, m) for d, m in imgs]
+    dk = AX.dtype_kind(case, 'finder_image', p_plain=0.6)
+    imgs = [(dk(d * mag, mag) if unit is None else d * mag, m) for d, m in imgs]
     seq = [int(rng.integers(0, len(imgs))) for _ in range(ncalls)]
     via = [str(rng.choice(['call', 'find_stars'])) for _ in range(ncalls)]
     case.params = dict(desc, shapes=[list(i[0].shape) for i in imgs], seq=seq, via=via)
